@@ -6,7 +6,8 @@
 (*                                                                                          *)
 (* A cell is described by its tuple t = <<v1, ..., vL>> of layer values (integers; NaN is   *)
 (* the reserved integer NaN) and, for the reference operators, the value ref of the         *)
-(* reference layer.  Results are exact rationals <<num, den>>, den > 0; NaN is <<0, 0>>.    *)
+(* reference layer.  Results are exact rationals <<num, den>>, den > 0; NaN is <<0, 0>>;    *)
+(* <<0, -1>> is "not an admissible value" (see BadR).                                        *)
 EXTENDS Integers, Sequences, FiniteSets
 
 NaN == -99
@@ -14,7 +15,11 @@ NaNR == <<0, 0>>
 IsNaNR(q) == q[2] = 0
 R(n) == <<n, 1>>
 \* equality of results (rationals by cross-multiplication, NaN only equal to NaN)
-REq(a, b) == IF a[2] = 0 \/ b[2] = 0 THEN a[2] = 0 /\ b[2] = 0 ELSE a[1] * b[2] = b[1] * a[2]
+\* An observed value that is not (within the float bridge's tolerance) a small exact value of the expected
+\* kind is encoded as BadR by the worker: it equals nothing, not even itself.
+BadR == <<0, -1>>
+REq(a, b) == IF a[2] < 0 \/ b[2] < 0 THEN FALSE
+             ELSE IF a[2] = 0 \/ b[2] = 0 THEN a[2] = 0 /\ b[2] = 0 ELSE a[1] * b[2] = b[1] * a[2]
 
 HasNaN(t) == \E i \in 1..Len(t) : t[i] = NaN
 
